@@ -81,6 +81,18 @@ Uniform(S) == /\ \A a, b \in InNet(S) \cap Stateful :
 Homogeneous(S, k) == /\ \A e \in InNet(S) : S.vars[e] \in {"", k}
                      /\ \A e \in InNet(S) \cap Stateful : S.nxt[e].has => S.nxt[e].kind = k
 
+\* the network-level maps net.states / net.next_states / net.actions / net.disturbances: the elements they list, in
+\* the network's own enumeration order (an element is listed once its variables of that group exist)
+WithActions == {"L2", "O1", "R1", "R2"}           \* speed-limited link, mainstream origin, metered ramps
+WithDisturbances == {"O1", "R1", "R2", "D1"}      \* demands, destination density
+Listed(S, P(_)) == SelectSeq(ElemOrder(S), P)
+MapStates(S) == Listed(S, LAMBDA e : e \in Stateful /\ S.vars[e] # "")
+MapNext(S) == Listed(S, LAMBDA e : e \in Stateful /\ S.nxt[e].has)
+MapActions(S) == Listed(S, LAMBDA e : e \in WithActions /\ S.vars[e] # "")
+MapDisturbances(S) == Listed(S, LAMBDA e : e \in WithDisturbances /\ S.vars[e] # "")
+\* every element listed with next states is listed with states (a step needs initialised variables)
+MapsConsistent(S) == \A i \in DOMAIN MapNext(S) : \E j \in DOMAIN MapStates(S) : MapStates(S)[j] = MapNext(S)[i]
+
 Available == {"numpy", "casadi"}
 KindOfName(n) == IF n = "numpy" THEN "np" ELSE "sx"
 
